@@ -158,6 +158,11 @@ def run(ctx):
     ctx.guarded(r, r_varmap)
     r = ctx.rule("R2b", "fresh variables get process-wide unique indices", 1)
     ctx.guarded(r, r_var_identity)
+    from .. import jitdriver as JD_
+
+    r = ctx.rule("R1c", "native code reads variable slot i at i * (bytes per slot): strides, and no narrowed displacement out of range", 20)
+    ctx.guarded(r, JD_.r_strides)
+    ctx.guarded(r, JD_.r_narrow_displacements)
     r = ctx.rule("R3", "missing variables and too-short argument lists are errors; extras are allowed", 6)
     ctx.guarded(r, SC.r_arg_checks)
     ctx.guarded(r, SC.r_no_early_ok)
